@@ -82,7 +82,8 @@ def run(F, R, tier):
             elif name == "Ok":
                 nones = [x for x in vals if ctor_of(x) == "std::option::Option::None"]
                 somes = [x for x in vals if ctor_of(x) == "std::option::Option::Some"]
-                R.ob("C02-b", "a successful resolution yields policy errors or nothing", len(nones) >= 1 and len(somes) >= 3, "Ok arm shape changed (%d None / %d Some exits)" % (len(nones), len(somes)), where(arm["body"]))
+                other = [x for x in vals if x not in nones and x not in somes and x.get("k") != "TryExit"]
+                R.ob("C02-b", "a successful resolution yields policy errors or nothing", len(nones) >= 1 and len(somes) >= 1 and not other, "Ok arm yields something else than Some(policy error) / None: %s" % [expr_text(x)[:40] for x in other[:3]], where(arm["body"]))
         allv = {v["path"] for v in F.adt("graph::Resolution")["variants"]}
         R.ob("C02-b", "every resolution kind handled explicitly", covered >= allv and not ca, "catch-all or missing variant", where(m))
 
